@@ -41,6 +41,21 @@ func c07GenerateWidth(c *Ctx, r *Report) {
 		problems = append(problems, fmt.Sprintf("%d unsigned parses in modToPrintf, want exactly one (the width)", n))
 	}
 	r.check(len(problems) == 0, "C07.R2.generate", "modToPrintf:width", c.pos(fn.Pos()), "width <= 255", "%s", strings.Join(problems, "; "))
+	// the offset: ReadByte guards start+offset and end+offset in int64; the sums cannot wrap only if the offset itself is
+	// bounded (a 32-bit parse)
+	var ps []string
+	m := 0
+	for _, ci := range callsIn(fn, "strconv.ParseInt") {
+		m++
+		bits, ok := constIntOf(ci.Common().Args[2])
+		if !ok || bits == 0 || bits > 32 {
+			ps = append(ps, fmt.Sprintf("%s: the modifier offset is parsed with bit size %d: start+offset / end+offset in generateReader.ReadByte's guard can wrap around int64, so ${9223372036854775807} passes the guard and generates negative numbers", c.pos(ci.Pos()), bits))
+		}
+	}
+	if m != 1 {
+		ps = append(ps, fmt.Sprintf("%d signed parses in modToPrintf, want exactly one (the offset)", m))
+	}
+	r.check(len(ps) == 0, "C07.R2.generate", "modToPrintf:offset", c.pos(fn.Pos()), "|offset| < 2^31", "%s", strings.Join(ps, "; "))
 }
 
 func c07RdataLexErr(c *Ctx, r *Report) {
